@@ -66,7 +66,7 @@ func runC13(t *testing.T, c *choice.Stream, r *Result, opt RunOpt) {
 		} else {
 			cf.ClientRev = clRevs[c.Draw("rev.client", len(clRevs))]
 			cf.ServerRev = svRevs[c.Draw("rev.server", len(svRevs))]
-			kind = []string{"hello", "delayed", "exception", "other-packet", "bad-code", "truncated", "fin", "rst", "stall", "stall-ctx"}[c.Weighted("resp", 3, 4, 2, 2, 1, 2, 1, 1, 2, 2)]
+			kind = []string{"hello", "delayed", "exception", "other-packet", "bad-code", "truncated", "fin", "rst", "stall", "stall-ctx", "partial-stall"}[c.Weighted("resp", 3, 4, 2, 2, 1, 2, 1, 1, 2, 2, 3)]
 		}
 		cf.Comp = compMenu[c.Draw("comp", len(compMenu))]
 		cf.ReadTimeout = []time.Duration{0, time.Second, 10 * time.Second}[c.Weighted("readtimeout", 3, 1, 1)]
@@ -114,6 +114,17 @@ func runC13(t *testing.T, c *choice.Stream, r *Result, opt RunOpt) {
 		case "truncated":
 			k := 1 + c.Draw("trunc.k", len(hello.B)-1)
 			script = append(script, simnet.Step{Label: "truncated-hello", Send: hello.B[:k], Fin: true})
+		case "partial-stall":
+			// the beginning of an answer (a hello or an exception), then silence without closing
+			b := hello.B
+			if c.Bool("partial.exc", 1, 3) {
+				b = (&SPacket{Kind: "exception", Exc: DrawExceptionChain(c)}).Encode(cf)
+			}
+			k := 1 + c.Draw("partial.k", len(b)-1)
+			script = append(script, simnet.Step{Label: "partial-answer", Send: b[:k]})
+			if c.Bool("partial.ctx", 1, 3) {
+				ctxDeadline = []time.Duration{500 * time.Millisecond, 2 * time.Second, 5 * time.Second}[c.Draw("ctxdl", 3)]
+			}
 		case "fin":
 			script = append(script, simnet.Step{Label: "fin", Fin: true})
 		case "rst":
@@ -192,6 +203,14 @@ func runC13(t *testing.T, c *choice.Stream, r *Result, opt RunOpt) {
 					}
 				}
 				switch kind {
+				case "partial-stall":
+					lim := effHT
+					if ctxDeadline > 0 && ctxDeadline < lim {
+						lim = ctxDeadline
+					}
+					if took > lim+cf.EffReadTimeout()+5*time.Second {
+						r.Violate("slow-return", "partial-stall-slow", "%s returned %v after a server that sent the beginning of its answer and fell silent (handshake timeout %v, context deadline %v)", what, took, effHT, ctxDeadline)
+					}
 				case "stall":
 					if took > effHT+5*time.Second {
 						r.Violate("slow-return", "stall-slow", "%s returned %v after a silent server (handshake timeout %v)", what, took, effHT)
